@@ -35,6 +35,7 @@ type Index struct {
 	Refs     map[*ssa.Function][]*ssa.Function // function -> in-scope functions that call it or take it as a value
 
 	ifaceMethodNames map[string]bool
+	seamSites        map[*types.TypeName][2]int // unexported interface -> (method calls through it, of which bound)
 }
 
 func fieldRefOfRaw(t types.Type, idx int) (FieldRef, bool) {
@@ -253,6 +254,10 @@ func BuildIndex(p *Program) *Index {
 					}
 				}
 				if cc, ok := in.(ssa.CallInstruction); ok {
+					if cal := p.invokeTarget(cc.Common()); cal != nil {
+						ix.Callees[fn] = append(ix.Callees[fn], cal)
+						ix.Callers[cal] = append(ix.Callers[cal], fn)
+					}
 					if cal := calleeOf(cc.Common()); cal != nil {
 						ix.Callees[fn] = append(ix.Callees[fn], cal)
 						ix.Callers[cal] = append(ix.Callers[cal], fn)
@@ -424,6 +429,11 @@ func (ix *Index) buildRefs() {
 		for _, n := range sc.Names() {
 			if tn, ok := sc.Lookup(n).(*types.TypeName); ok {
 				if it, ok := tn.Type().Underlying().(*types.Interface); ok {
+					// an unexported interface with a single implementer is a seam: every call through it is bound to
+					// that implementer (invokeTarget), so its methods are not open slots
+					if !tn.Exported() && !rawIndex && ix.closedSeam(tn) {
+						continue
+					}
 					for i := 0; i < it.NumMethods(); i++ {
 						ix.ifaceMethodNames[it.Method(i).Name()] = true
 					}
@@ -435,6 +445,15 @@ func (ix *Index) buildRefs() {
 	for _, fn := range ix.P.Funcs {
 		for _, b := range fn.Blocks {
 			for _, in := range b.Instrs {
+				if cc, isCall := in.(ssa.CallInstruction); isCall && !rawIndex {
+					if t := ix.P.invokeTarget(cc.Common()); t != nil && ix.P.InScope[t] && t != fn {
+						k := [2]*ssa.Function{t, fn}
+						if !seen[k] {
+							seen[k] = true
+							ix.Refs[t] = append(ix.Refs[t], fn)
+						}
+					}
+				}
 				for _, op := range in.Operands(nil) {
 					if op == nil || *op == nil {
 						continue
@@ -452,6 +471,36 @@ func (ix *Index) buildRefs() {
 			}
 		}
 	}
+}
+
+// closedSeam: every method call through the unexported interface, anywhere in the program, is bound to a concrete
+// method (one implementer, or a field always initialised with one concrete type), and there is at least one.
+func (ix *Index) closedSeam(tn *types.TypeName) bool {
+	if ix.seamSites == nil {
+		ix.seamSites = map[*types.TypeName][2]int{}
+		for _, fn := range ix.P.Funcs {
+			for _, b := range fn.Blocks {
+				for _, in := range b.Instrs {
+					cc, isCall := in.(ssa.CallInstruction)
+					if !isCall || !cc.Common().IsInvoke() {
+						continue
+					}
+					n, isN := cc.Common().Value.Type().(*types.Named)
+					if !isN {
+						continue
+					}
+					k := ix.seamSites[n.Origin().Obj()]
+					k[0]++
+					if ix.P.invokeTarget(cc.Common()) != nil {
+						k[1]++
+					}
+					ix.seamSites[n.Origin().Obj()] = k
+				}
+			}
+		}
+	}
+	k := ix.seamSites[tn]
+	return k[0] > 0 && k[0] == k[1]
 }
 
 // isRoot: a function that code outside the analysed call chains can reach directly: exported API, a method
